@@ -795,7 +795,7 @@ func c37TruncCases(total int) int {
 	return k
 }
 
-var c37Boundary = []uint64{0, 1, 0xff, 0xffff, 0x7fff, 0x8000, 0x7fffffff, 0x80000000, 0xffffffff, 0xfffffffe, 0x100, 0x10000}
+var c37Boundary = []uint64{0, 1, 0xff, 0xffff, 0x7fff, 0x8000, 0x7fffffff, 0x80000000, 0xffffffff, 0xfffffffe, 0x100, 0x10000, 0xfffffff0, 0xffffffe0}
 
 func c37Gen(seed uint64, idx, total int, tier string) any {
 	r := vfNewRand(seed, "c37")
@@ -842,8 +842,11 @@ func c37Gen(seed uint64, idx, total int, tier string) any {
 			}
 		case x < 15:
 			c.Muts = append(c.Muts, c37Mut{K: vfPick(r, []string{"u16le", "u16be", "u32le", "u32be"}), Off: lenOff(), V: vfPick(r, c37Boundary)})
-		case x < 18:
+		case x < 17:
 			c.Muts = append(c.Muts, c37Mut{K: "splice", Off: off(), Del: r.Intn(33), Ins: r.Intn(33), Seed: r.U64()})
+		case x < 19:
+			// a zeroed run (several adjacent fields at once)
+			c.Muts = append(c.Muts, c37Mut{K: "zero", Off: lenOff(), Del: vfPick(r, []int{2, 4, 8, 8, 12, 16})})
 		default:
 			c.Muts = append(c.Muts, c37Mut{K: "trunc", Off: off()})
 		}
@@ -877,6 +880,10 @@ func c37Apply(data []byte, muts []c37Mut) []byte {
 		case "xor":
 			if o < len(b) {
 				b[o] ^= byte(m.V)
+			}
+		case "zero":
+			for i := 0; i < m.Del && i < 64 && o+i < len(b); i++ {
+				b[o+i] = 0
 			}
 		case "u16le":
 			put(2, false)
